@@ -235,6 +235,18 @@ func c04Check(key, msg []byte, chunks []int, sumPrefix []byte) (hGEp bool, err e
 	if out != want {
 		return false, fail("Sum", out[:])
 	}
+	// 1b. message placed against inaccessible pages: reads outside the message fault
+	if gs, gerr := guards(1, 80000); gerr == nil && len(msg) <= 70000 {
+		for _, atEnd := range []bool{true, false} {
+			mg := gs[0].place(msg, atEnd)
+			if e := catchFault(func() { poly1305.Sum(&out, mg, &k) }); e != nil {
+				return false, fmt.Errorf("Sum with the message next to an inaccessible page (atEnd=%v): %v (key=%x |msg|=%d)", atEnd, e, key, len(msg))
+			}
+			if out != want {
+				return false, fail(fmt.Sprintf("Sum with the message next to an inaccessible page (atEnd=%v)", atEnd), out[:])
+			}
+		}
+	}
 	// 2. incremental MAC with the drawn chunking
 	var tag, tag2 []byte
 	h := poly1305.New(&k)
